@@ -32,11 +32,12 @@ FAULTS = ("held_not_in_universe", "alpha_silent_on_held", "alpha_outside_univers
 
 def _quote(rng, base=None, low=False):
     if base is None:
-        base = rng.uniform(0.5, 3.0) if low else math.exp(rng.uniform(math.log(1.0), math.log(5000.0)))
+        base = rng.choice([rng.uniform(0.5, 3.0), rng.uniform(0.05, 0.5)]) if low else \
+            math.exp(rng.uniform(math.log(1.0), math.log(5000.0)))
     else:
         base = max(0.05, base * math.exp(rng.gauss(0.0, 0.05)))
     r = rng.random()
-    if r < 0.25:
+    if r < 0.25 and base >= 0.75:
         base = float(max(1, round(base)))       # round prices hit floor boundaries
     else:
         base = round(base, 4)
@@ -100,6 +101,7 @@ def generate(rng, focus, tier="quick"):
         cfg["py_datetime"] = rng.random() < 0.3
     ops = []
     now = start
+    prev_w = None
     last = dict((a, cfg["quotes0"][a][0]) for a in assets)
     if "short_holding" in enabled or rng.random() < 0.3:
         # pre-existing positions (possibly short, possibly outside the universe) opened by raw orders
@@ -160,6 +162,16 @@ def generate(rng, focus, tier="quick"):
             w[keys[0]] = rng.choice([-1e-12, -1e-17, -1e-20, -5e-324, -5e-9, 0.3 - 0.1 - 0.2, -1e-7, -0.001, -0.25])
             if len(keys) == 1:
                 w[rng.choice([a for a in assets if a != keys[0]] or keys)] = 0.5
+        if uk == "dynamic" and rng.random() < 0.15:
+            # offsets are relative to the moment of the amendment (a few minutes to a few weeks later), or "unlisted"
+            ops.append({"k": "amend_entry", "asset": rng.choice(assets),
+                        "entry": rng.choice([60, 3600, DAY, 3 * DAY, 10 * DAY, 30 * DAY, None])})
+        if prev_w is not None and rng.random() < 0.2:
+            w = dict(prev_w)          # the same target weights again: the orders are the small drift since last time
+        prev_w = dict(w)
+        if rng.random() < 0.1:
+            ops.append({"k": "retune", "buffer": rng.choice([0.0, 0.05, 0.3, 0.5, 1.0]),
+                        "leverage": rng.choice([0.5, 1.0, 2.0, 3.0])})
         step = {"k": "rebalance", "t": now, "weights": w}
         if rng.random() < 0.2:
             step["no_stats"] = True          # pcm(dt): the optional stats argument left out
@@ -439,6 +451,33 @@ def _run(plan, ctx):
             broker.submit_order(PID, Order(ts(now), op["asset"], op["qty"]))
             ctx.event("order", op["asset"], op["qty"])
             continue
+        if k == "amend_entry":
+            # the user corrects a listing date in place, on the mapping the universe was built from
+            if uk == "dynamic":
+                a_ = op["asset"]
+                e_old = cfg["entries"].get(a_, None)
+                if a_ in cfg["entries"] and (e_old is None or e_old > now):
+                    e_new = None if op["entry"] is None else max(now + 1, now + int(op["entry"]))
+                    cfg = dict(cfg)
+                    cfg["entries"] = dict(cfg["entries"])
+                    cfg["entries"][a_] = e_new
+                    key_ = [x for x in uni.asset_dates if x == a_][0]
+                    uni.asset_dates[key_] = _entry(a_, e_new)
+                    ctx.event("amend_entry", a_, e_new)
+                    ctx.probe("entry_date_amended_in_place")
+            continue
+        if k == "retune":
+            # the user re-configures the sizer between two rebalances by assigning its public attribute
+            cfg = dict(cfg)
+            if cfg["long_only"]:
+                sizer.cash_buffer_percentage = op["buffer"]
+                cfg["cash_buffer"] = op["buffer"]
+            else:
+                sizer.gross_leverage = op["leverage"]
+                cfg["leverage"] = op["leverage"]
+            ctx.event("retune", op["buffer"], op["leverage"])
+            ctx.probe("sizer_reconfigured_between_rebalances")
+            continue
         if k == "tick":
             t = max(now, op["t"])
             n0 = len(txns)
@@ -623,6 +662,9 @@ def _run(plan, ctx):
         try:
             handler(ts(t), orders)
         except Exception as e:
+            from qsim.core import raised_in_repo as _rir
+            if not _rir(e):
+                raise          # a bug of the harness: exit 2, never a verdict
             ctx.violate("C09", "execution_raised", {"exc": repr(e)[:300]})
             raise StopRun()
         if nb is not None:
